@@ -182,7 +182,7 @@ def cmd_judge(outdir, tier="quick"):
             line_text = src.split("\n")[s["line"] - 1].strip()
             caught = []
             for c in WATCH[s["file"]]:
-                env = dict(os.environ, VERIF_REPO=d, VERIF_WORKER_BUDGET="240")
+                env = dict(os.environ, VERIF_REPO=d, VERIF_WORKER_BUDGET=os.environ.get("MUT_BUDGET", "240"))
                 try:
                     p = subprocess.run([PY, os.path.join(VERIF, "run.py"), c, "--tier", tier], cwd=VERIF, stdout=subprocess.PIPE, stderr=subprocess.STDOUT, text=True, timeout=1500, env=env)
                     rc = p.returncode
